@@ -18,7 +18,7 @@ BOUNDS = {
 }
 RULE = (
     "pairs: full product of starts x durations x label equality x pulsetimes; lists: every ORDERED sequence (any order, overlaps, duplicates) up to the length bound; "
-    "non-trivial = cases where the second start equals the first start, or equals first end + pulsetime exactly, or a duration is <= 0, or the second ends before the first ends"
+    "non-trivial (pairs) = second start equals the first start or equals first end + pulsetime exactly, or the first duration is negative, or equal data with the second ending before the first; (lists) = some consecutive input pair sits exactly on the pulsetime boundary or has a negative-duration first event with equal data"
 )
 ASSUMPTIONS = [
     "heartbeat_merge/reduce may mutate their arguments (statement does not forbid it); fresh events are built per call",
@@ -81,7 +81,7 @@ def _pair_unit(args):
                             u.evaluations += 1
                             u.transitions += 1
                             u.states += 1
-                            nt = s1 == s2 or s2 == s1 + d1 + p or d1 <= 0 or d2 <= 0 or s2 + d2 < s1 + d1
+                            nt = s1 == s2 or s2 == s1 + d1 + p or d1 < 0 or (same and s2 + d2 < s1 + d1)
                             if nt:
                                 u.nontrivial += 1
                             if got_t != want:
@@ -139,7 +139,7 @@ def _list_unit(args):
                 u.evaluations += 1
                 u.transitions += 1
                 u.states += 1
-                nt = any(b[0] == a[0] or b[0] == a[0] + a[1] + p or a[1] <= 0 or b[0] + b[1] < a[0] + a[1] for a, b in zip(seq, seq[1:])) if n > 1 else seq[0][1] <= 0
+                nt = any(b[0] == a[0] + a[1] + p or (a[1] < 0 and a[2] == b[2]) for a, b in zip(seq, seq[1:])) if n > 1 else seq[0][1] < 0
                 if nt:
                     u.nontrivial += 1
                 for sym, det in check_list(emb, seq, p, u)[:1]:
@@ -209,7 +209,7 @@ def _list2_unit(args):
                 u.evaluations += 1
                 u.transitions += 1
                 u.states += 1
-                if any(b[0] == a[0] or b[0] == a[0] + a[1] + p or a[1] <= 0 or b[0] + b[1] < a[0] + a[1] for a, b in zip(seq, seq[1:])):
+                if any(b[0] == a[0] + a[1] + p or (a[1] < 0 and a[2] == b[2]) for a, b in zip(seq, seq[1:])):
                     u.nontrivial += 1
                 for sym, det in check_list(emb, seq, p, u)[:1]:
                     case = {"kind": "list", "unit_us": unit_us, "seq": [list(t) for t in seq], "pulsetime_units": p}
